@@ -147,8 +147,12 @@ def run_case(seed):
     count(f"payload={pkind}")
     count(f"normal={cn}")
     cx, cy = [a for a in range(3) if a != cn]
+    prev = None        # (Mandoline object, its configuration, an earlier result and its digest)
     for k in range(4):
-        limit_arg = rng.choice([None, None] + list(range(pf.nlevels)))
+        if k % 2 == 1 and prev is not None:
+            limit_arg = prev[1][1]
+        else:
+            limit_arg = rng.choice([None, None] + list(range(pf.nlevels)))
         L = pf.nlevels - 1 if limit_arg is None else limit_arg
         kindp, P = gen_position(rng, pf, L, cn)
         u = Fraction(pf.dx(L)[cn]) / 8
@@ -171,16 +175,43 @@ def run_case(seed):
         else:
             fields = rng.sample(keys, rng.randint(1, len(keys))) + ['grid_level']
         serial = rng.random() < 0.5
+        if k % 2 == 1 and prev is not None:
+            # the second slice of a pair is cut with the SAME Mandoline object (same fields, limit, mode), elsewhere
+            fields, _, serial = prev[1]
+            fk = 'same object'
+            if pos is None:
+                # on a reused object "no position" means the previous one (the object keeps its plane): ask for the centre explicitly
+                pos = float(Fraction(pf.geo_low[cn]) + P_eff * u)
         count(f"position={kindp}")
         count(f"fields={fk}")
         desc = dict(seed=seed, normal=cn, position_kind=kindp, position_units_of_dx_over_8=P, pos=pos, fields=fields,
                     limit_level=limit_arg, serial=serial, payload=pkind, meta=pf.meta)
         core.set_policy(rng.choice(['identity', 'reverse', 'random']), seed + k)
-        res = core.outcome(lambda: Mandoline(path, fields=fields, limit_level=limit_arg, serial=serial,
-                                             verbose=0).slice(normal=cn, pos=pos, fformat='return'))
+        def digest(o):
+            return {n: (np.asarray(v).shape, np.asarray(v).tobytes()) for n, v in o.items()} if isinstance(o, dict) else None
+
+        def cut():
+            nonlocal prev
+            if k % 2 == 1 and prev is not None:
+                obj = prev[0]
+            else:
+                obj = Mandoline(path, fields=fields, limit_level=limit_arg, serial=serial, verbose=0)
+            r = obj.slice(normal=cn, pos=pos, fformat='return')
+            if k % 2 == 0:
+                prev = (obj, (list(fields), limit_arg, serial), r, digest(r))
+            return r
+        earlier = prev if k % 2 == 1 else None
+        res = core.outcome(cut)
         core.set_policy('identity', 0)
         out['evals'] += 1
         out['keys'].append(core.khash(seed, k))
+        if earlier is not None and earlier[3] is not None and digest(earlier[2]) != earlier[3]:
+            out['violations'].append(dict(desc, kind='earlier-result-changed',
+                                          what='the arrays returned by an earlier slice() of the same Mandoline object changed when the next slice was cut'))
+            prev = None
+            continue
+        if k % 2 == 1:
+            prev = None
         if kindp == 'outside':
             if res[0] == 'ok':
                 out['violations'].append(dict(desc, kind='outside-answered', what='a position outside the domain was sliced'))
